@@ -581,6 +581,17 @@ func (c *boundsCtx) defFacts(g *dgraph, v ssa.Value, seen map[ssa.Value]bool, de
 		if n := c.minLen(g, v, map[ssa.Value]bool{}, 0); n > 0 {
 			g.addLE(term{zeroSym, n}, ln)
 		}
+		// an element of a regexp match is a piece of the text that was matched: len(m[i]) <= len(s)
+		if ld, ok := v.(*ssa.UnOp); ok && ld.Op == token.MUL {
+			if ia, ok := ld.X.(*ssa.IndexAddr); ok {
+				if cl, ok := ia.X.(*ssa.Call); ok && len(cl.Call.Args) == 2 {
+					rf := refOf(cl.Common())
+					if rf.Pkg == "regexp" && rf.Recv == "Regexp" && (rf.Name == "FindStringSubmatch" || rf.Name == "FindSubmatch") {
+						g.addLE(ln, term{"len(" + c.key(cl.Call.Args[1]) + ")", 0})
+					}
+				}
+			}
+		}
 		// exact relations for slices of known shape
 		if sl, ok := v.(*ssa.Slice); ok {
 			c.defFacts(g, sl.X, seen, depth+1)
